@@ -240,6 +240,9 @@ def run(ctx):
             cfg["sampling"] = {"random": rng.choice([5, 10])}
         if name == "BayesianOptimizer" and rng.random() < 0.3:
             cfg["xi"] = rng.choice([0.0, 0.3])
+        if name == "BayesianOptimizer" and rng.random() < 0.4:
+            from gradient_free_optimizers.optimizers.smb_opt import surrogate_models as _sm
+            cfg["gpr"] = _sm.GPR_linear() if rng.random() < 0.5 else _sm.GPR()       # the gpr variants: a private object instead of the shared default
         if name == "TreeStructuredParzenEstimators" and rng.random() < 0.5:
             cfg["gamma_tpe"] = rng.choice([0.1, 0.5])
         if name == "ForestOptimizer":
